@@ -374,6 +374,11 @@ class MultiStream(Stream):
         streams = self._streams
         if phase in streams:
             stream = streams[phase]
+            imol = self._imol
+            if stream._imol.data is not imol.data.rows[imol._phase_indexer(phase)]:
+                # Phases were added in place (copy_like, mix_from); the label may now have a row of its own
+                stream._imol = imol.get_phase(phase)
+                stream.reset_cache()
         else:
             stream = Stream.__new__(Stream)
             stream._ID = stream._sink = stream._source = None
